@@ -12,6 +12,8 @@ import urlgen
 
 ID = "C03"
 LEAN_MODULE = "UralModel.Props.C03"
+# the string level (cleaning of the canonical form): Props/C03Control.lean, same namespace
+EXTRA_IMPORTS = ["UralModel.Props.C03Control"]
 THEOREMS = [
     "Ural.Props.C03.normalize_factors",
     "Ural.Props.C03.normalize_canonicalize_partial",
@@ -27,9 +29,18 @@ THEOREMS = [
     "Ural.Props.C03.fingerprint_canonicalize_partial",
     "Ural.Props.C03.not_fullFingerprintOfNormalizeEq",
     "Ural.Props.C03.not_fullNormalizeCanonicalize",
+    # Props/C03Control.lean: what the cleaning pass deletes is never produced raw by the safe unquoters
+    "Ural.Props.C03.unquoters_emit_no_cleaned_character",
+    "Ural.Props.C03.canonical_form_has_no_cleaned_character",
+    "Ural.Props.C03.clean_canonical_partial",
+    "Ural.Props.C03.not_fullCleanCanonical",
 ]
 TABLE_OBLIGATIONS = [
     "Ural.Props.C03.tables_unsafe_sets",
+    # Props/C03Control.lean, over Gen/C03Classes.lean (harness/gen_tables/c03_classes.py)
+    "Ural.Props.C03.control_class_stays_escaped",
+    "Ural.Props.C03.strip_class_stays_escaped",
+    "Ural.Props.C03.cleaning_classes_model",
 ]
 RULE = (
     "A case is a collision class: a base URL (structured components over the quantifier's token "
